@@ -76,6 +76,9 @@ class _FakeStdout:
 TEXTS = ["G1 X1", "G1 X1   ", "M3 S100 ; spindle", "; ümlaut ✓ 文字", "(msg, héllo)\t ",
          "G0 Z5", "", "   ", "; a", "T1 M6",
          # unicode line boundaries other than CR/LF must stay inside the one line
+         # not in NFC form (combining accent, angstrom / ohm signs, conjoining jamo):
+         # every writer gets the same bytes, nothing is normalised on the way
+         "; cafe\u0301 \u212b \u2126", "; \u1100\u1161\u11a8 e\u0301",
          "; tool\u2028M112 now", "; a\x0bb\x0cc", "; x\x85y", "; p\x1cq\x1dr\x1es", "; para\u2029graph"]
 
 
@@ -265,6 +268,18 @@ def run_case(case, cl=None):
                     changed_since_emit = True
                 else:
                     cl.add("add_already_registered")
+            elif name == "readd":
+                if op["k"] in registered:
+                    before_d = pool.disc[op["k"]]
+                    g.remove_writer(pool.writers[op["k"]])
+                    g.write("; between removal and re-adding")
+                    data = ("; between removal and re-adding" + eol).encode("utf-8")
+                    registered.remove(op["k"])
+                    deliver(data)
+                    g.add_writer(pool.writers[op["k"]])
+                    registered.append(op["k"])
+                    changed_since_emit = True
+                    cl.add("writer_removed_and_added_again")
             elif name == "remove":
                 g.remove_writer(pool.writers[op["k"]])
                 if op["k"] in registered:
@@ -408,6 +423,8 @@ def strategy(n):
                   st.integers(-50, 50)).map(
             lambda t: {"op": "call", "call": t[0], "text": t[1], "v": float(t[2])}),
         st.just({"op": "flush"}), st.just({"op": "teardown"}),
+        # a writer taken out and put back later: it goes on where it was
+        k.map(lambda i: {"op": "readd", "k": i}),
         st.sampled_from(["lf", "crlf", "cr"]).map(lambda e: {"op": "set_eol", "eol": e}),
         st.just({"op": "other_builder"}))
     return st.fixed_dictionaries({
